@@ -412,7 +412,7 @@ func TestVerif_C08(t *testing.T) {
 	start := time.Now()
 	vfContinueAfterPanic = true
 	env := vfGetEnv("C08")
-	n := env.N(96, 6000)
+	n := env.N(96, 1600)
 	part := vfRunSharded(t, env, "TestVerif_C08", n, vfNumCPU(), func(part *vfPart, i int) { vfRunC08Case(env, part, i) })
 	if part == nil {
 		return
